@@ -828,8 +828,16 @@ func (g *G) forStmt(nest int) *m.N {
 		}
 		n.X = a
 		elTy = TPat
-	case k == 7:
+	case k == 7 && g.flip("nullseq"):
 		n.X = g.Expr(TNull, 0)
+	case k == 7:
+		// null elements: a null local still hides an outer variable
+		a := m.EArr()
+		for i, c := 0, g.intn("nnull", 1, 2); i < c; i++ {
+			a.A = append(a.A, &m.E{K: "null"})
+		}
+		n.X = a
+		elTy = TNull
 	case k == 8 && g.C.NonIterable:
 		n.X = g.Expr(pickS(g, "nonit", []Ty{TInt, TStr, TBool}), 0)
 	default:
@@ -864,6 +872,9 @@ func (g *G) forStmt(nest int) *m.N {
 			obs = append(obs, m.EName(n.T))
 		}
 		n.Body = append(n.Body, m.NPrint(m.ECall("cat", obs...)))
+		if collide && g.C.Probe {
+			n.Body = append(n.Body, m.NPrint(m.ECall("probe", m.EStr(n.S))))
+		}
 	}
 	if g.C.LoopMeta && n.Y == nil && g.inForIf == 0 {
 		n.Body = append(n.Body, g.loopMeta(depth)...)
